@@ -15,6 +15,7 @@ from .cache import TransferNullCache, TransferCache
 from ..constants import (
     MAX_TRANSFER_MGMT_INTERVAL,
     MIN_TRANSFER_MGMT_INTERVAL,
+    TRANSFER_MGMT_SETTINGS_POLL_INTERVAL,
     TRANSFER_REPLY_TIMEOUT,
 )
 from ..exceptions import (
@@ -119,6 +120,7 @@ class TransferManager(BaseManager):
         self._management_lock: asyncio.Lock = asyncio.Lock()
         self._download_path_lock: asyncio.Lock = asyncio.Lock()
         self._management_flags: _RequestFlag = _RequestFlag(0)
+        self._managed_upload_slots: int = self.get_upload_slots()
 
         self._MESSAGE_MAP = build_message_map(self)
 
@@ -516,7 +518,18 @@ class TransferManager(BaseManager):
             await self._user_manager.untrack_user(username, TrackingFlag.TRANSFER)
 
     async def _management_job(self) -> float:
-        await self._management_queue.get()
+        try:
+            async with atimeout(TRANSFER_MGMT_SETTINGS_POLL_INTERVAL):
+                await self._management_queue.get()
+
+        except asyncio.TimeoutError:
+            # No cycle was requested. Changing the upload slot limit in the
+            # settings does not emit an event, only continue with a cycle if
+            # the limit is no longer the one used during the last cycle
+            if self.get_upload_slots() == self._managed_upload_slots:
+                return 0.0
+
+        self._managed_upload_slots = self.get_upload_slots()
 
         start = time.monotonic()
 
